@@ -1,6 +1,7 @@
 package worlds
 
 import (
+	"encoding/hex"
 	"math"
 
 	"verif/sim/engine"
@@ -152,5 +153,121 @@ func init() {
 		Rule: "seeded simulations with a bad client issuing invalid requests at arbitrary moments of the history; " + distinctRule + "; non-trivial = at least one invalid request",
 		Real: realFleetComponents, Stub: stubFleetComponents,
 		Assumptions: []string{"NaN weights, factors and constructor parameters, and a weight of exactly 0 with an invalid value, are outside the documented contract and not generated", sampleAssumption},
+	})
+}
+
+// foreignNode is the C07 actor that sends grammar-generated streams and
+// re-orders / repeats whole blocks of messages in flight.
+func foreignNode(g *fleetGen) {
+	r := g.r
+	left := r.Range(1, 8)
+	var act func()
+	act = func() {
+		if left <= 0 {
+			return
+		}
+		left--
+		n := g.nodes[r.Intn(len(g.nodes))]
+		id := g.nextMsg
+		g.nextMsg++
+		if len(g.binMsgs) > 0 && r.Pct(40) {
+			src := g.binMsgs[r.Intn(len(g.binMsgs))]
+			k := r.Range(1, 10)
+			perm := make([]int64, k)
+			for i := range perm {
+				perm[i] = int64(r.Intn(12))
+			}
+			if r.Pct(50) { // a pure permutation of up to 12 blocks
+				perm = perm[:0]
+				for i := 0; i < 12; i++ {
+					perm = append(perm, int64(i))
+				}
+				for i := len(perm) - 1; i > 0; i-- {
+					j := r.Intn(i + 1)
+					perm[i], perm[j] = perm[j], perm[i]
+				}
+			}
+			g.emit(engine.Event{Ev: "blockperm", J: int64(id), I: int64(src), L: perm})
+			n = g.msgOwner[src]
+		} else {
+			g.emit(engine.Event{Ev: "foreign", N: n.id, J: int64(id), B: hex.EncodeToString(g.foreignStream(n))})
+			g.binMsgs = append(g.binMsgs, id)
+			g.msgOwner[id] = n
+		}
+		g.msgForms[id] = "foreign"
+		for d := r.Range(1, 3); d > 0; d-- {
+			dst := g.sameMapping(n)
+			mode := g.prof.modes[r.Intn(len(g.prof.modes))]
+			g.q.After(int64(r.Range(1, 2000)), func() {
+				g.emit(engine.Event{Ev: "deliver", N: dst.id, J: int64(id), S: mode, I: int64(g.r.Intn(2))})
+			})
+		}
+		g.q.After(int64(r.Range(1, 1500)), act)
+	}
+	g.q.After(int64(r.Range(0, 500)), act)
+}
+
+func sweepAfterSend(g *fleetGen, n *fgNode, msg int, form string) {
+	if form != "bin" && form != "binomit" {
+		return
+	}
+	r := g.r
+	for k := r.Range(1, 2); k > 0; k-- {
+		g.emit(engine.Event{Ev: "sweep", N: g.sameMapping(n).id, J: int64(msg)})
+	}
+	if o := g.otherMapping(n); o != nil && form == "bin" {
+		g.emit(engine.Event{Ev: "mismatch", N: o.id, J: int64(msg)})
+	}
+}
+
+func init() {
+	engine.Register(&engine.Prop{
+		ID: "C06", Level: "exploration", World: "fleet",
+		QuickRuns: 10000, ThoroughRuns: 1000000,
+		Generate: GenFleet(&fleetProfile{prop: "C06", stores: allKinds, roles: []string{"sketch", "sketch", "exact"}, minNodes: 1, maxNodes: 4, shareMap: true,
+			weights: []string{"unit", "int", "frac"}, valueSigns: []string{"pos", "neg", "mixed", "zeros"},
+			ops:   map[string]int{"add": 30, "addw": 15, "burst": 6, "merge": 3, "copy": 2, "clear": 4, "reweight": 2, "send": 25, "query": 2},
+			forms: []string{"bin", "bin", "binomit"}, modes: []string{"merge", "fresh", "reuse"}, queryEvery: 0, maxOps: 120, concat: true}),
+		Execute:    ExecFleet,
+		NonTrivial: nonTrivialFleet(2, "send", "deliver"),
+		Rule:       "seeded pipeline simulations over the binary wire (mapping embedded or omitted, caller buffers with prefix, spare capacity and canaries; frames delayed, re-ordered, duplicated, dropped and concatenated; decoding into live, fresh and cleared-and-re-used sketches of every store kind); " + distinctRule + "; non-trivial = at least 2 mutations, a send and a delivery",
+		Real:       realFleetComponents, Stub: stubFleetComponents,
+		Assumptions: []string{exactAssumption + "; generated weights survive the documented +1/-1 transform of the varfloat codec", sampleAssumption},
+	})
+	engine.Register(&engine.Prop{
+		ID: "C07", Level: "exploration", World: "fleet",
+		QuickRuns: 10000, ThoroughRuns: 1000000,
+		Generate: GenFleet(&fleetProfile{prop: "C07", stores: allKinds, roles: []string{"sketch", "sketch", "exact"}, minNodes: 1, maxNodes: 4, shareMap: true,
+			weights: []string{"unit", "int", "frac"}, valueSigns: []string{"pos", "neg", "mixed", "zeros"},
+			ops:   map[string]int{"add": 30, "addw": 15, "burst": 6, "merge": 3, "clear": 3, "send": 25},
+			forms: []string{"bin", "bin", "binomit"}, modes: []string{"merge", "fresh", "reuse"}, queryEvery: 0, maxOps: 80, extra: foreignNode}),
+		Execute:    ExecFleet,
+		NonTrivial: nonTrivialFleet(1, "deliver"),
+		Rule:       "seeded pipeline simulations with a foreign node (independent codec written from the format documentation) that decodes every encoding the implementation produces, sends grammar-generated streams (three layouts, negative/zero/large strides, repeated blocks and indexes, statistics blocks, any block order) and re-orders or repeats whole blocks in flight; " + distinctRule + "; non-trivial = at least one mutation and one delivery",
+		Real:       realFleetComponents, Stub: append([]string{"foreign node: DocCodec, an independent implementation of the wire format from flag.go / encoding.go comments (math/big arithmetic)"}, stubFleetComponents...),
+		Assumptions: []string{"the documentation decoder (refmodel/doccodec.go) is the oracle for the meaning of a stream", exactAssumption, sampleAssumption},
+	})
+	engine.Register(&engine.Prop{
+		ID: "C08", Level: "fault_enumeration", World: "fleet",
+		QuickRuns: 500, ThoroughRuns: 40000,
+		Generate: GenFleet(&fleetProfile{prop: "C08", stores: allKinds, roles: []string{"sketch", "sketch", "exact"}, minNodes: 1, maxNodes: 3, shareMap: true, intruder: true,
+			weights: []string{"unit", "int", "frac"}, valueSigns: []string{"pos", "neg", "mixed", "zeros"},
+			ops:   map[string]int{"add": 30, "addw": 15, "burst": 6, "merge": 3, "clear": 2, "send": 20},
+			forms: []string{"bin", "bin", "binomit"}, modes: []string{"merge", "fresh"}, queryEvery: 0, maxOps: 40, afterSend: sweepAfterSend}),
+		Execute: ExecFleet,
+		NonTrivial: func(p *engine.Plan) bool {
+			for _, e := range p.Events {
+				if e.Ev == "sweep" {
+					return true
+				}
+			}
+			return false
+		},
+		Rule: "every message produced by a seeded pipeline run is subjected to EVERY truncation point 0..len (three receivers each: fresh decoder without and with a supplied mapping, and a copy of a live sketch) and, at every block boundary, to EVERY flag byte not defined in flag.go; the message population is sampled, the fault space per message is exhaustive; " + distinctRule + "; non-trivial = at least one swept message",
+		Real: realFleetComponents, Stub: append([]string{"DocCodec block parser (classifies each cut as inside a block or between blocks)"}, stubFleetComponents...),
+		Assumptions: []string{"the state of a receiver after a reported error is not constrained (throw-away receivers are used)", "flags 'quadratic' and 'quartic' are defined in flag.go but not implemented; they are neither required to decode nor counted as undefined", exactAssumption},
+		Extra: func(st *engine.Stats) map[string]interface{} {
+			return map[string]interface{}{"exhaustive_per_case": true, "cases": st.Probes["messages-swept"], "faults_enumerated": st.Probes["cuts-enumerated"] + st.Probes["flag-substitutions-enumerated"]}
+		},
 	})
 }
